@@ -586,6 +586,11 @@ def judge_c15(case, log):
             vs.append(Violation("C15", "C15/life/destroy-leaks-memory:%s" % m["state"], "%d allocations live after destroy" % fin["live_allocs"]))
         if fin.get("double_close") or fin.get("foreign_close"):
             vs.append(Violation("C15", "C15/life/destroy-bad-close:%s" % m["state"], "double/foreign close during the case"))
+        gtf = [g for g in fin.get("gt", []) if g[0] == 0]
+        if m.get("default") and m["state"] in ("running", "ended", "reaped") and gtf and gtf[0][1] not in ("reaped", "none"):
+            # whatever the model believed along the way: the kernel's account after a default-policy destroy
+            vs.append(Violation("C15", "C15/life/default-destroy-abandons-child",
+                                "after a default-policy destroy the kernel says the child is '%s'" % gtf[0][1]))
         if m["state"] == "fork" and fin.get("inchild_done") != 1:
             vs.append(Violation("C15", "C15/life/fork-child-destroy", "destroy on the child side of a fork did not return null (%s)" % fin.get("inchild_done")))
     return vs, obs, obs["destroys"] > 0
